@@ -22,6 +22,7 @@ Step(e) ==
       [] e.ev = "SetState"    -> SetState(e.subst, e.c, e.phase)
       [] e.ev = "Feed"        -> Feed(e.F, e.cf, e.order, e.usermap)
       [] e.ev = "Reassign"    -> Reassign(e.i, e.kv)
+      [] e.ev = "Sort"        -> SortSubstances
       [] OTHER                -> FALSE
 
 (* observed monomial tables: sequences of <<coef, p, <<<<var, exp>>, ...>>>>; compared as sets *)
@@ -83,4 +84,5 @@ NoPoints == {}
 NoReK == {}
 TrNames == [s \in Species |-> s]
 TrOv == <<>>
+TrSort == <<"A", "B", "C", "D", "E", "G">>
 =============================================================================
